@@ -42,6 +42,11 @@ CHECKS = {
         text="Same skeletons; relational post-condition decided by the solver over all (v, w): validate(S % v, w) "
              "clean implies validate(S, w) clean, and every value generated from S % v validates against S.",
         design="4/C04-C05-C12"),
+    "C08": dict(
+        text="Bounded symbolic execution of validate / validate_or_fail / format_result: value leaves are symbolic "
+             "(all doubles incl. inf/nan, unbounded ints) and one node, at a solver-chosen position, is replaced "
+             "by a solver-chosen member of a hostile-value zoo. Any escaping exception is a counterexample.",
+        design="4/C08"),
 }
 
 NOT_YET = {
